@@ -44,7 +44,7 @@ CONTRACTS = {
     "AtLeast._occurrences": {"props": ["C01", "C03", "C05", "C08", "C10", "C16"], "optional": True,
                              "why": "self + all descendants, one entry per occurrence, nothing de-duplicated (what the definition checks of errors() range over)"},
     "AtLeast._dependencies": {"props": ["C01", "C03", "C05", "C08", "C10", "C16"], "why": "(premise of every property stated over validated models) complete edge relation: (id, ids of all children) for every compound"},
-    "AtLeast.errors": {"props": ["C01", "C03", "C05", "C08", "C10", "C16"],
+    "AtLeast.errors": {"props": ["C01", "C03", "C05", "C08", "C10", "C16"], "observe": "emptiness",
                        "why": "(which models count as validated is the premise of C01/C03/C05/C08/C16) 4 labels <-> 4 checks; cycle check = TopologicalSorter(dict(_dependencies())).prepare() with exception => True; "
                               "definition-uniqueness checks compare the number of distinct definition keys with the number of distinct ids "
                               "(keys are holes judged by rule E7); duplicate edge check over (parent id, child id)"},
@@ -57,7 +57,7 @@ CONTRACTS = {
     "AtLeast.equation_bounds": {"props": ["C06", "C10"], "why": "range of sign*sum - value"},
     "AtLeast.is_tautology": {"props": ["C06"], "why": "min(sign*sum) - value >= 0"},
     "AtLeast.is_contradiction": {"props": ["C06"], "why": "max(sign*sum) - value <= -1"},
-    "AtLeast.assume": {"props": ["C01", "C03", "C04", "C05", "C06", "C07"], "split": "sign",
+    "AtLeast.assume": {"props": ["C01", "C03", "C04", "C05", "C06", "C07"], "split": "sign", "ignore_stores": ["variable"],
                        "why": "K1 own-id override, K2 constant short-circuit, K3 all children same dict, K4 interval kernel, "
                               "K5 keeps value/sign/id, H4 no child loses its definition"},
     "AtLeast.evaluate": {"props": ["C01", "C03", "C04", "C05", "C06", "C07"], "why": "evaluate = entry of own id in evaluate_propositions"},
